@@ -77,7 +77,7 @@ func init() {
 		},
 		Assumptions: []string{"blockSize scaled to 32 (Level 1)", "I/O never fails", "single client"},
 		Bounds: map[string]string{
-			"quick":    "K=3 ops over {Put,Delete,Sync}(+batch of <=2 ops, +Merge), pool of 2 symbolic 1-byte keys, value lengths {0,1,25}, DataFileSize symbolic in [60,200], every IndexType, ShardNum 1-2, both I/O types",
+			"quick":    "K=3 ops over {Put,Delete,Sync}(+batch of <=2 ops, +Merge), pool of 2 symbolic 1-byte keys, value lengths {0,1,25}, DataFileSize symbolic in [60,200], every IndexType, ShardNum 1-2, both I/O types; plus: SyncStrategy Always/Threshold; concrete key families around representation boundaries (7/8/9-byte keys sharing a prefix, prefix-of-each-other, 0x00/0xFF neighbours, all-0xFF); empty key rejected everywhere; DataFileSize symbolic from 1 byte; the configuration as a choice point (IndexType x ShardNum{1,3} x FileIOType x SyncStrategy{No,Always}); one job at REAL geometry (value lengths in a window that ends the record around the first 32 KiB boundary, sparse symbolic content); Fold with an early-stopping callback",
 			"thorough": "K=4 (K=3 with batches/merge), pool 2-3 keys of 1-2 bytes, value lengths {0,1,25,50,75}, DataFileSize symbolic in [60,200], IndexType x ShardNum{1,2,3} x I/O type",
 		},
 		Outside: "sequences longer than K; keys longer than 2 bytes; real 32 KiB geometry; I/O errors; concurrency (C08/C09)",
@@ -118,7 +118,7 @@ func init() {
 		},
 		Assumptions: []string{"blockSize scaled to 32 (Level 1)", "I/O never fails", "single client (the batch holds the database lock)"},
 		Bounds: map[string]string{
-			"quick":    "0-2 plain puts before the batch (rotated by a symbolic DataFileSize), K=2-3 batch calls over {Put,Delete,Get}, pool of 2 symbolic keys, value lengths {0,1,20}, overflow flush mid-batch",
+			"quick":    "0-2 plain puts before the batch (rotated by a symbolic DataFileSize), K=2-3 batch calls over {Put,Delete,Get}, pool of 2 symbolic keys, value lengths {0,1,20}, overflow flush mid-batch; plus: skip-list (pool of 3 keys), mmap, multi-shard, configuration as a choice point",
 			"thorough": "K=3-4 batch calls, pool 2-3 keys of 1-2 bytes, every IndexType, overflow flushes, Sync batch on mmap",
 		},
 		Outside: "batches longer than K calls; I/O errors; concurrent users of one Batch object",
@@ -173,7 +173,7 @@ func init() {
 		},
 		Assumptions: []string{"blockSize scaled to 32 (Level 1), mmap granule 128", "I/O never fails", "no foreign files in the directory"},
 		Bounds: map[string]string{
-			"quick":    "K=1..3 ops + restart (+K2<=2 ops + second restart); every end offset of a one-record file over 40 value lengths (std and mmap); writer/reader pairs over index type, shard count, I/O type, DataFileSize (symbolic, reader smaller than existing files); batches of <=2 ops; merge",
+			"quick":    "K=1..3 ops + restart (+K2<=2 ops + second restart); every end offset of a one-record file over 40 value lengths (std and mmap); writer/reader pairs over index type, shard count, I/O type, DataFileSize (symbolic, reader smaller than existing files); batches of <=2 ops; merge; plus: 12 data files before the history (ids 0..11); configuration as a choice point; value lengths 127/128/129 (uvarint width change)",
 			"thorough": "all 9 writer/reader index pairs at K=3+1, 100 value lengths for end offsets, batches and merges mixed in",
 		},
 		Outside: "more than two restarts; histories longer than K+K2; real 32 KiB geometry; foreign files",
@@ -224,7 +224,7 @@ func init() {
 		Assumptions: []string{"usage protocol: the first positioning call on a new iterator is Rewind or Seek", "every Seek target lies at or ahead of the cursor in iteration order (the property's own restriction); no Seek on an exhausted iterator",
 			"xxhash placement of symbolic keys is an uninterpreted function (any placement, incl. all in one shard)"},
 		Bounds: map[string]string{
-			"quick":    "pool of 2-3 symbolic keys (1-2 bytes), each absent / present / put-then-deleted; 2-3 calls over {Rewind, Seek(symbolic target), Next}; forward and reverse; optional 1-byte symbolic prefix; one late Put/Delete; every index type; ShardNum 1-3",
+			"quick":    "pool of 2-3 symbolic keys (1-2 bytes), each absent / present / put-then-deleted; 2-3 calls over {Rewind, Seek(symbolic target), Next}; forward and reverse; optional 1-byte symbolic prefix; one late Put/Delete; every index type; ShardNum 1-3; plus concrete key families (long keys, Seek targets among the pool keys)",
 			"thorough": "3-4 calls, pool 3-4, both directions for every index type, prefix with 2-byte keys, late writes",
 		},
 		Outside: "more than 4 keys / 4 calls; backward seeks (deliberately not claimed); concurrent writers during iteration (C09)",
@@ -277,7 +277,7 @@ func init() {
 		},
 		Assumptions: []string{"blockSize scaled to 32 (Level 1)", "I/O never fails", "batch ids are time based: data-file bytes are compared only for batch-free histories under one DataFileSize"},
 		Bounds: map[string]string{
-			"quick":    "lock-step pairs: hashmap/btree, btree/skiplist, std/mmap, two symbolic DataFileSizes with different sync strategies, ShardNum 16 vs 5000 on concrete keys (real xxhash), batches; K=2-3 ops; nextPowerOfTwo for all 64-bit inputs (unbounded bit-vector query)",
+			"quick":    "lock-step pairs: hashmap/btree, btree/skiplist, std/mmap, two symbolic DataFileSizes with different sync strategies, ShardNum 16 vs 5000 on concrete keys (real xxhash), batches; K=2-3 ops; nextPowerOfTwo for all 64-bit inputs (unbounded bit-vector query); plus: three keys over 1 vs 2 shards; iterators compared after a partial pass + Rewind and after Rewind + Seek to every pool key; concrete key families (skip list vs B-tree / hash map)",
 			"thorough": "all three index pairs at K=4 with restarts, std/mmap, dfs/sync pairs, ShardNum {1,16,1024,5000} on concrete keys, batches at K=3",
 		},
 		Outside: "sequences longer than K; configurations not listed; I/O errors",
@@ -312,7 +312,7 @@ func init() {
 		},
 		Assumptions: []string{"sync.Pool modelled as LIFO always-reuse (the adversarial case for aliasing)", "append growth follows the gc runtime's growslice policy (matters for which appends alias)"},
 		Bounds: map[string]string{
-			"quick":    "K=2 calls (K=3 without batches) over {Put, Delete, Get, batch(Put,Put same key[,Delete])} with ONE reused 2-byte key buffer and ONE reused 3-byte value buffer, scribbled with fresh symbolic bytes after every return; every index type",
+			"quick":    "K=2 calls (K=3 without batches) over {Put, Delete, Get, batch(Put,Put same key[,Delete])} with ONE reused 2-byte key buffer and ONE reused 3-byte value buffer, scribbled with fresh symbolic bytes after every return; every index type; plus: a value buffer longer than a (scaled) block (multi-chunk values, with and without batches); configuration as a choice point",
 			"thorough": "K=3 with batches, every index type, 2 shards",
 		},
 		Outside: "sequences longer than K; buffers longer than 3 bytes; sync.Pool dropping items",
@@ -351,7 +351,7 @@ func init() {
 		},
 		Assumptions: []string{"blockSize scaled to 32 (Level 1)", "statfs reports 16 GiB available (disk-full is outside the claim)", "live bytes = sizes held by the live index entries (in-package access)"},
 		Bounds: map[string]string{
-			"quick":    "K=2-3 ops over {Put,Delete,Restart,batch<=2,Merge}, pool 2 keys, value lengths {0,1,25}, DataFileSize symbolic in [40,160]; Stat checked after every step and after a final restart",
+			"quick":    "K=2-3 ops over {Put,Delete,Restart,batch<=2,Merge}, pool 2 keys, value lengths {0,1,25}, DataFileSize symbolic in [40,160]; Stat checked after every step and after a final restart; plus: skip-list/mmap/multi-shard; Merge+restart; 12 files; N staged Put+Delete cycles inside a batch before a filler near DataFileSize; the merge-ratio policy (256 MiB floor scaled to 20 bytes, ratio 0.5) against Stat",
 			"thorough": "K=3-4 with restarts mixed in, mmap",
 		},
 		Outside: "histories longer than K; the inductive counter step at real geometry (not built)",
@@ -392,7 +392,7 @@ func init() {
 		},
 		Assumptions: []string{"blockSize scaled to 32 (Level 1)", "I/O never fails", "statfs reports 16 GiB available", "sequential: the racing writer of the property is covered by C08/C09's schedule harnesses only"},
 		Bounds: map[string]string{
-			"quick":    "K=2-3 ops (Put/Delete/batch<=2) with DataFileSize symbolic in [60,160] (so the input has 1-4 files), Merge, optional post-merge Put/Delete, adopting restart, second restart; every iteration order of the older-files map; std and mmap",
+			"quick":    "K=2-3 ops (Put/Delete/batch<=2) with DataFileSize symbolic in [60,160] (so the input has 1-4 files), Merge, optional post-merge Put/Delete, adopting restart, second restart; every iteration order of the older-files map; std and mmap; plus: a SECOND merge generation (history, Merge, adopting restart, history, Merge ...), skip-list/multi-shard, 12 input files, configuration as a choice point",
 			"thorough": "K=3-4, a second merge and restarts inside the history",
 		},
 		Outside: "histories longer than K; disk-full; background merge ticker; merge racing with writers (see C08/C09)",
@@ -449,7 +449,7 @@ func init() {
 			"mmap back-end: process death only (the zero-extended files are what recovery sees); loss of unsynced mapped pages on power failure is not modelled",
 			"blockSize scaled to 32 (Level 1)"},
 		Bounds: map[string]string{
-			"quick":    "K=2-3 mutations over {Put,Delete,Sync,batch<=2}, pool of 2 symbolic keys, value lengths {0,1}, SyncStrategy No/Always/Threshold (BytesPerSync symbolic), rotation by symbolic DataFileSize; crash before every FS op; process death and power loss with every tail length; one more Put + clean restart after recovery",
+			"quick":    "K=2-3 mutations over {Put,Delete,Sync,batch<=2}, pool of 2 symbolic keys, value lengths {0,1}, SyncStrategy No/Always/Threshold (BytesPerSync symbolic), rotation by symbolic DataFileSize; crash before every FS op; process death and power loss with every tail length; one more Put + clean restart after recovery; plus: B-tree/skip-list and multi-shard jobs; a batch larger than DataFileSize; power loss under mmap (the unsynced tail of the mapped file is cut); a SECOND crash (process death) after the recovered database has written a value of symbolic length class",
 			"thorough": "K=3 everywhere, value length 25 (multi-chunk), Sync batches, B-tree",
 		},
 		Outside: "torn sectors / garbage tails (C12 covers damaged bytes); mmap power loss; crashes during Open itself; I/O errors",
@@ -494,7 +494,7 @@ func init() {
 		},
 		Assumptions: crashAssumptions,
 		Bounds: map[string]string{
-			"quick":    "0-1 plain puts, one batch of 1-3 staged puts/deletes over 2 symbolic keys (repeats included), DataFileSize symbolic in [100,200] so the batch is flushed in pieces across files, BatchOptions.Sync on/off; crash before every FS op of staging and Commit; process death and power loss with every tail length; later Put, Merge, restart; visibility checked live right after Commit",
+			"quick":    "0-1 plain puts, one batch of 1-3 staged puts/deletes over 2 symbolic keys (repeats included), DataFileSize symbolic in [100,200] so the batch is flushed in pieces across files, BatchOptions.Sync on/off; crash before every FS op of staging and Commit; process death and power loss with every tail length; later Put, Merge, restart; visibility checked live right after Commit; plus: skip-list/multi-shard Sync batch, mmap overflow batch",
 			"thorough": "two batches, 2 pre-puts, second crash during recovery, B-tree",
 		},
 		Outside: "batches of more than 3 staged ops; batch id collisions across processes; I/O errors; mmap crash images",
@@ -534,7 +534,7 @@ func init() {
 		},
 		Assumptions: crashAssumptions,
 		Bounds: map[string]string{
-			"quick":    "history of K=1-3 ops (Put/Delete/batch) with DataFileSize symbolic so the merge input has 1-4 files, then Merge, then a restart that adopts it; crash (process death) before every FS op of the history, of Merge (mkdir, create, write, close, marker), and of adoption (each rename, hint rename, each unlink of RemoveAll in every order); a second crash before every FS op of the recovering Open; then a final Open, one Put and a clean restart",
+			"quick":    "history of K=1-3 ops (Put/Delete/batch) with DataFileSize symbolic so the merge input has 1-4 files, then Merge, then a restart that adopts it; crash (process death) before every FS op of the history, of Merge (mkdir, create, write, close, marker), and of adoption (each rename, hint rename, each unlink of RemoveAll in every order); a second crash before every FS op of the recovering Open; then a final Open, one Put and a clean restart; plus: B-tree/mmap/multi-shard job, second merge generation under crash",
 			"thorough": "K=3, batches, every map iteration order, power loss instead of process death",
 		},
 		Outside: "more than two crashes; power loss during merge in quick tier (merge output is not fsynced: see DESIGN findings); I/O errors",
@@ -591,7 +591,7 @@ func init() {
 			"mmap: bytes changed through the mapping since the last msync are found by comparing the mapping with a shadow taken at msync time (a zero byte written over a zero byte is not counted); stores through a mapping are charged to the call (tag) during which they happened",
 			"violations of this property are NOT replayed natively (fsync is invisible through the API); the replay directory holds the concrete operation sequence and the FS op log instead"},
 		Bounds: map[string]string{
-			"quick":    "K=2-3 calls over {Put,Delete,Sync,Close+Open,Sync batch<=2}, SyncStrategy Always/Threshold(BytesPerSync symbolic in [1,200])/No, DataFileSize symbolic in [60,120] (rotations), std and mmap; policy checked at every return",
+			"quick":    "K=2-3 calls over {Put,Delete,Sync,Close+Open,Sync batch<=2}, SyncStrategy Always/Threshold(BytesPerSync symbolic in [1,200])/No, DataFileSize symbolic in [60,120] (rotations), std and mmap; policy checked at every return; plus: the full call alphabet {Put,Sync,batch} per (policy, back-end) with non-Sync batches and no file-size pressure; plain batch then Sync()/Close(); stores through a mapping charged to the call that made them",
 			"thorough": "K=3-4",
 		},
 		Outside: "kernel behaviour of fsync/msync; sequences longer than K; the inductive counter step for unbounded histories (not built)",
@@ -681,7 +681,7 @@ func init() {
 		},
 		Assumptions: []string{"blockSize scaled to 32 (Level 1)", "I/O never fails", "the codec harnesses are unbounded in the field values (all 32-bit / 64-bit values, every varint length) and bounded in key length (<= 3 bytes)"},
 		Bounds: map[string]string{
-			"quick":    "Encode/DecodeHintRecord for all 32-bit Fid/BlockID/Offset/Size and symbolic keys of 0-3 bytes; Encode/DecodeLogRecord(+Value) for all types, all 64-bit batch ids; Merge after K=2-3 ops (Put/Delete/batch) with symbolic 1-2 byte keys and DataFileSize symbolic (1-3 output files): hint entries vs records decoded at those positions, hinted key set vs scanned key set, hint-path Open vs scan-path Open (keys, values, positions incl. size)",
+			"quick":    "Encode/DecodeHintRecord for all 32-bit Fid/BlockID/Offset/Size and symbolic keys of 0-3 bytes; Encode/DecodeLogRecord(+Value) for all types, all 64-bit batch ids; Merge after K=2-3 ops (Put/Delete/batch) with symbolic 1-2 byte keys and DataFileSize symbolic (1-3 output files): hint entries vs records decoded at those positions, hinted key set vs scanned key set, hint-path Open vs scan-path Open (keys, values, positions incl. size); plus: a second merge generation; records larger than DataFileSize (DataFileSize symbolic in [15,45]); record codec at the uvarint width boundaries 127/128 and 16383/16384 for key and value; configuration as a choice point",
 			"thorough": "K=3-4, pool of 3 keys up to 3 bytes, multi-chunk values, mmap",
 		},
 		Outside: "keys longer than 3 bytes; histories longer than K",
@@ -717,7 +717,7 @@ func init() {
 			"for this property only one solver-chosen file-system call inside Open may return an error, so every error exit of Open after the lock is taken is driven",
 			"racing Opens are interleaved at file-system and lock operations (engine threads); schedule violations are not replayed natively"},
 		Bounds: map[string]string{
-			"quick":    "open+put, rejected second Open (op log shows nothing but the lock file touched), Close, then: reopen / a damaged data file (every byte position, symbolic non-zero mask) makes Open fail or not, undo, reopen / the k-th FS call of Open fails for every k, reopen; two goroutines racing Open on a fresh directory with <= 2 preemptions",
+			"quick":    "open+put, rejected second Open (op log shows nothing but the lock file touched), Close, then: reopen / a damaged data file (every byte position, symbolic non-zero mask) makes Open fail or not, undo, reopen / the k-th FS call of Open fails for every k, reopen; two goroutines racing Open on a fresh directory with <= 2 preemptions; plus: refused Open while a FINISHED merge awaits adoption (directory listings and op log unchanged); an Open that leaves by a panic after taking the lock; the closing handle issues no FS operation once a racing Open holds the lock",
 			"thorough": "<= 4 preemptions",
 		},
 		Outside: "other processes, NFS, kernel flock semantics, GC finalizers closing leaked descriptors",
@@ -759,7 +759,7 @@ func init() {
 			"real 32 KiB data-file blocks; the 512 MiB mmap granule is scaled to 8192 bytes (two pages) so that a 5000-byte value written after a truncation crosses a page; use-after-Unmap is not modelled",
 			"I/O never fails"},
 		Bounds: map[string]string{
-			"quick":    "K=2 ops (Put/Delete/batch/Merge+restart) on 2 symbolic keys, Backup, then nothing / a 1-byte Put / a 5000-byte Put, optional second Backup (into a second directory, or into the SAME directory after Delete/Merge/adopting restart); the copy is opened while the source is open and compared with the state at backup time; the source is compared with the model live and after a restart; std and mmap",
+			"quick":    "K=2 ops (Put/Delete/batch/Merge+restart) on 2 symbolic keys, Backup, then nothing / a 1-byte Put / a 5000-byte Put, optional second Backup (into a second directory, or into the SAME directory after Delete/Merge/adopting restart); the copy is opened while the source is open and compared with the state at backup time; the source is compared with the model live and after a restart; std and mmap; plus: configuration as a choice point",
 			"thorough": "K=3",
 		},
 		Outside: "backups racing with writers (Backup holds the write lock); histories longer than K; the real 512 MiB granule",
@@ -823,7 +823,7 @@ func init() {
 			"scores from {-1.5, 0, 2} (symbolic floats are not supported by the engine)", "keys, fields/members and values are 1 symbolic byte; 'absent' replies are normalised (nil,nil / -1,nil / key-not-found)",
 			"an emptied hash/set/list/zset keeps its type (as the implementation does)"},
 		Bounds: map[string]string{
-			"quick":    "K=2 commands from all 15 commands + restart over 1 key; K=3 over 2 keys for strings/hashes/Del/Type; K=4 for lists; K=3 for zsets (B-tree index) and for sets+Type+Set; 2 fields/members",
+			"quick":    "K=2 commands from all 15 commands + restart over 1 key; K=3 over 2 keys for strings/hashes/Del/Type; K=4 for lists; K=3 for zsets (B-tree index) and for sets+Type+Set; 2 fields/members; plus: empty values and the empty field/member name; restart that adopts a Merge of all structure records",
 			"thorough": "K=4 all commands on 1 key, K=3 all commands on 2 keys, K=5 lists",
 		},
 		Outside: "keys >= 9 bytes / members >= 5 bytes (could collide with an internal key|version|field encoding); symbolic clock and TTL arithmetic; score formatting beyond three values",
@@ -871,7 +871,7 @@ func init() {
 			"linearizability oracle: exists a total order respecting real time in which every Get returns the register's content; found flags concrete per path, values symbolic",
 			"switch-point interleaving is only a sound model of Go for data-race-free executions, so every job also runs the happens-before (vector clock) race check of C09 over each explored schedule; a race among Put/Get/Delete is reported as a C08 violation because it voids the linearizability argument"},
 		Bounds: map[string]string{
-			"quick":    "2 goroutines x 1-2 operations from {Put(symbolic value), Delete, Get} on 1-2 keys, <= 2-3 preemptions, optional concurrent Merge (<= 1 preemption), SyncStrategy No / Always / Threshold (symbolic BytesPerSync 1..200); history checked for linearizability; at quiescence live dump == dump after Close+Open",
+			"quick":    "2 goroutines x 1-2 operations from {Put(symbolic value), Delete, Get} on 1-2 keys, <= 2-3 preemptions, optional concurrent Merge (<= 1 preemption), SyncStrategy No / Always / Threshold (symbolic BytesPerSync 1..200); history checked for linearizability; at quiescence live dump == dump after Close+Open; every job also runs the happens-before check (incl. the shared offset of an open file description); Gets of keys stored in different blocks",
 			"thorough": "3 goroutines x 1, 2 x 2 with 3 preemptions, Merge with 2 preemptions",
 		},
 		Outside: "4..16 clients; more than 3 preemptions; weak-memory effects; the background merge ticker",
@@ -929,7 +929,7 @@ func init() {
 			"this replaces the order-variable SMT query sketched in the design: with all schedules inside the preemption bound explored anyway, the per-schedule happens-before check finds the same unordered pairs and is far simpler to trust",
 			"schedule violations are not replayed natively"},
 		Bounds: map[string]string{
-			"quick":    "every unordered pair (55) of {Put, Get, Delete, ListKeys, Fold, iterator scan, Stat, Sync, batch+Commit, Merge} on a pre-populated B-tree database (DataFileSize 100 so rotations happen inside the run), <= 2 preemptions (1 with Merge); readers against writers with DataFileSize 20 (the read key lives in an older file, every write rotates); plus hash-map/skip-list samples",
+			"quick":    "every unordered pair (55) of {Put, Get, Delete, ListKeys, Fold, iterator scan, Stat, Sync, batch+Commit, Merge} on a pre-populated B-tree database (DataFileSize 100 so rotations happen inside the run), <= 2 preemptions (1 with Merge); readers against writers with DataFileSize 20 (the read key lives in an older file, every write rotates); plus hash-map/skip-list samples; plus three overlapping Merges",
 			"thorough": "all pairs for every index type with <= 3 preemptions, two triples",
 		},
 		Outside: "4..16 goroutines; races inside the Go runtime/stdlib; the background merge ticker; weak-memory effects",
